@@ -27,7 +27,7 @@ type profile struct {
 }
 
 var profiles = map[string]profile{
-	"C01": {deep: 40, resets: true, on: []string{"agree", "permtwin"}, byz: 30, spec: 10, restarts: true, maxEvents: 140, forks: 2},
+	"C01": {deep: 40, resets: true, on: []string{"agree", "permtwin"}, byz: 30, spec: 10, restarts: true, maxEvents: 140, forks: 3},
 	"C02": {deep: 40, resets: true, on: []string{"delivery"}, byz: 20, restarts: true, maxEvents: 140, forks: 1},
 	"C03": {resets: true, on: []string{"cheaters"}, heavyOK: true, maxEvents: 120, forks: 2},
 	"C04": {deep: 40, on: []string{"frame", "reject"}, byz: 250, spec: 120, storms: true, restarts: true, maxEvents: 90, forks: 1},
@@ -118,6 +118,8 @@ func (cl *Cluster) drawKnobs(p profile) {
 		wantCheaters = K("cheaters", func() int64 { return int64(c.PickW("cheaters", []int{5, 4, 2})) })
 	case 2:
 		wantCheaters = K("cheaters", func() int64 { return int64(c.PickW("cheaters", []int{1, 5, 3, 1})) })
+	case 3: // in between: a third of the runs without cheaters
+		wantCheaters = K("cheaters", func() int64 { return int64(c.PickW("cheaters", []int{4, 5, 3, 1})) })
 	}
 	var tot, cw uint64
 	for _, w := range k.weights {
